@@ -9,6 +9,7 @@ TRUSTED_BASE = [
     "translator tools/gen_tables.py -> Generated/ForwardedFacts.v (shape of each body-state handler: accepted bytes counted, state kept, interim-response leftover, body-mode selection)",
     "the response head parser (httparse::Response) is not in the Coq model: it is checked by the differential run against the independent oracle in this file; request serialization (Model/FwdRequest.v, read back by Spec/Rfc9112.v) and the response-field filter (Model/HopByHop.v: ASCII trimming and lower-casing) are models of their own, tied by the facts FWD_SERIALIZE_REQUEST_AS_MODELLED / FWD_HOP_BY_HOP_WHEREVER_THEY_STAND and by the exchanges (request head byte for byte through the door; origin fields in shuffled order)",
     "extraction + driver.ml, cross-checked against vm_compute; harness door verif::forwarded (mirror request / respond objects, real DuplexPipe, paused clock)",
+    "harness engine c17_front_h1: the real endpoint (Core::listen, TLS, Http1Codec) with an HTTP/1.1 client and a scripted origin on loopback, in real time; the client's bytes are read back by the reader in this file",
 ]
 ASSUMPTIONS = [
     "http::HeaderMap iteration order is not part of the contract: header lines are compared as multisets",
@@ -18,7 +19,13 @@ RULE = ("requests: GET/POST/PUT/HEAD/DELETE x HTTP/1.1, HTTP/2, HTTP/3 x bodies 
         "Content-Length 0..300, chunked (sizes 1, 15, 16, 17, 255, 256, upper/lower-case hex, extensions), close-delimited, 204/304/HEAD bodiless, 100/103 interim prefixes, "
         "hop-by-hop headers (connection with listed names, keep-alive, proxy-connection, upgrade); origin stream segmentations: whole, random 1/2/3-cuts, cuts at CR LF, "
         "byte-at-a-time; client sink acceptance patterns: all, 1 at a time, random 0..7; bytes after the end of the body; non-trivial = cut or partial acceptance; "
-        "distinct = distinct (request, response, cuts, acceptance)")
+        "distinct = distinct (request, response, cuts, acceptance); HTTP/1.1 clients through the real endpoint: interim prefixes (100, 102, 103, up to three) x the origin's "
+        "segments (everything in one segment, one segment per head, byte-wise) x Content-Length / chunked / close-delimited; request bodies that arrive slower than the idle "
+        "timeout fires on the silent response direction (chunks every 300-700 ms, timeout 1000 ms; paused clock at the door, real time through the endpoint); chunk-size lines "
+        "around the stated line limit (model and code must refuse the same ones)")
+
+# real time through the real endpoint: a verdict on such a case must persist in 2 of 3 solitary re-runs
+RETRY_PREFIX = "endpoint:"
 
 HOP_ALWAYS = {"proxy-connection", "keep-alive", "upgrade"}
 
@@ -241,7 +248,131 @@ def gen_cases(rng, ctx):
                           meta={"method": "GET", "path": "/p", "exp_req_hs": sorted([("accept", "*/*"), ("host", "@A")]), "fwd_body": [], "declared": None,
                                 "version": 3, "status": 200, "interim": [], "exp_hs": [("content-length", "9000")], "exp_body": list(body),
                                 "complete": True, "trailing": False, "sizes": [len(head), p_, "..."], "acc": [], "mode": "cl"}))
+    cases += slow_body_cases(rng, thorough)
+    cases += h1_front_cases(rng, thorough)
+    cases += chunk_line_limit_cases(rng, thorough)
     return cases
+
+
+INTERIM_HEAD = {100: b"HTTP/1.1 100 Continue\r\n\r\n", 102: b"HTTP/1.1 102 Processing\r\n\r\n",
+                103: b"HTTP/1.1 103 Early Hints\r\nLink: </x>\r\n\r\n"}
+INTERIM_FIELDS = {100: [], 102: [], 103: [("link", "</x>")]}
+
+
+def body_chunks_tok(chunks):
+    return sum(([len(c)] + list(c) for c in chunks), [])
+
+
+def slow_body_cases(rng, thorough):
+    """A request body that arrives slower than the idle timer of the (silent) response direction fires: the timer of one
+    direction must not end or cut the other one (the door's timeout is 1000 virtual ms; the origin answers once the body is there)."""
+    out = []
+    combos = [(1, 400, 8), (2, 400, 8), (1, 700, 4), (3, 300, 12)] + ([(1, 300, 10), (2, 700, 5), (3, 400, 8), (1, 999, 3), (2, 501, 6)] if thorough else [])
+    for version, gap, n in combos:
+        chunks = [bytes(rng.bytes(5)) for _ in range(n)]
+        body = b"".join(chunks)
+        req_hs = [("accept", "*/*"), ("content-length", str(len(body)))] + ([("host", "origin.test")] if version == 1 else [])
+        stream = b"HTTP/1.1 200 OK\r\nContent-Length: 2\r\n\r\nok"
+        # the origin answers 10 ms after the last body chunk, i.e. while both directions are still open (once the request stream has
+        # ended, the response direction is on a plain timeout of its own, which is C14's business)
+        delay = gap * n + 10
+        toks = [[version, 1, gap, delay], list(b"POST"), list(b"http://origin.test/p"), flat(req_hs), body_chunks_tok(chunks), list(stream), [len(stream)], []]
+        out.append(Case(line("c17_run", toks), None, kind="slow-body:h%d" % version, nontrivial=True,
+                        meta={"method": "POST", "path": "/p", "exp_req_hs": sorted([(a, b) for a, b in req_hs if a != "host"] + [("host", "origin.test")]),
+                              "fwd_body": list(body), "declared": len(body), "version": version, "status": 200, "interim": [], "exp_hs": [("content-length", "2")],
+                              "exp_body": list(b"ok"), "complete": True, "trailing": False, "sizes": ["after the body"], "acc": [], "mode": "cl",
+                              "slow": "request body of %d bytes in chunks of 5 every %d ms, origin silent until it has it, idle timeout 1000 ms" % (len(body), gap)}))
+    return out
+
+
+def h1_front_cases(rng, thorough):
+    """HTTP/1.1 client <-TLS-> real endpoint <-> scripted origin (engine c17_front_h1)."""
+    out = []
+    prefixes = [[100], [103], [100, 103], [103, 100, 103], []] + ([[102], [102, 100], [103, 103, 103], [100, 102, 103]] if thorough else [])
+    for pi, pre in enumerate(prefixes):
+        for style in ("whole", "heads", "bytes"):
+            if not pre and style != "whole":
+                continue
+            mode = ["cl", "chunked", "close"][(pi + ("whole", "heads", "bytes").index(style)) % 3]
+            data = bytes(rng.bytes(rng.choice([2, 11, 40])))
+            status = rng.choice([200, 200, 404])
+            resp_hs = [("Content-Type", "text/plain")]
+            if mode == "cl":
+                resp_hs.append(("Content-Length", str(len(data))))
+                wire = data
+            elif mode == "chunked":
+                resp_hs.append(("Transfer-Encoding", "chunked"))
+                wire = gen_chunked(rng, data)
+            else:
+                wire = data
+            heads = [INTERIM_HEAD[st] for st in pre]
+            head = ("HTTP/1.1 %d %s\r\n" % (status, {200: "OK", 404: "Not Found"}[status])).encode() + b"".join(("%s: %s\r\n" % (a, b)).encode() for a, b in resp_hs) + b"\r\n"
+            stream = b"".join(heads) + head + wire
+            if style == "whole":
+                sizes = [len(stream)]
+            elif style == "heads":
+                sizes = [len(h) for h in heads] + [len(head) + len(wire)]
+            else:
+                sizes = [1] * len(stream)
+            req_hs = [("host", "@A"), ("accept", "*/*")]
+            impl = line("c17_front_h1", [[0, 0, 1], list(b"GET"), list(b"http://@A/p"), flat(req_hs), [], list(stream), sizes])
+            out.append(Case(impl, None, kind="endpoint:h1:interim-%s:%s:%s" % ("-".join(map(str, pre)) or "none", style, mode), nontrivial=True,
+                            meta={"h1": True, "method": "GET", "path": "/p", "exp_req_hs": sorted(req_hs), "fwd_body": [], "status": status, "interim": pre,
+                                  "exp_hs": sorted((a.lower(), b) for a, b in resp_hs), "exp_body": list(wire), "mode": mode, "sizes": sizes[:8], "version": 1}))
+    # a request body slower than the idle timeout of the silent response direction, in real time
+    for gap, n in ([(400, 8)] + ([(700, 4)] if thorough else [])):
+        chunks = [bytes(rng.bytes(5)) for _ in range(n)]
+        body = b"".join(chunks)
+        req_hs = [("host", "@A"), ("content-length", str(len(body)))]
+        stream = b"HTTP/1.1 200 OK\r\nContent-Length: 2\r\n\r\nok"
+        impl = line("c17_front_h1", [[1000, gap, 1], list(b"POST"), list(b"http://@A/p"), flat(req_hs), body_chunks_tok(chunks), list(stream), [len(stream)]])
+        out.append(Case(impl, None, kind="endpoint:h1:slow-body", nontrivial=True,
+                        meta={"h1": True, "method": "POST", "path": "/p", "exp_req_hs": sorted(req_hs), "fwd_body": list(body), "status": 200, "interim": [],
+                              "exp_hs": [("content-length", "2")], "exp_body": list(b"ok"), "mode": "cl", "sizes": [len(stream)], "version": 1,
+                              "slow": "request body of %d bytes in chunks of 5 every %d ms, origin silent until it has it, tcp_connections_timeout 1 s" % (len(body), gap)}))
+    return out
+
+
+def chunk_line_limit():
+    """the stated bound of a chunk-size line, as the translator read it from the source (0 = none stated)"""
+    import os
+    import re
+    import vlib
+    try:
+        m = re.search(r"Definition FWD_MAX_CHUNK_SIZE_LINE : N := (\d+)\.", open(os.path.join(vlib.COQ, "Generated", "ForwardedFacts.v")).read())
+        return int(m.group(1)) if m else 0
+    except OSError:
+        return 0
+
+
+def chunk_line_limit_cases(rng, thorough):
+    """Chunk-size lines (size, extension, CR LF) just below, at and above the stated line limit: up to the limit the body is
+    delivered as ever; beyond it the code and the model refuse alike (whatever the pieces)."""
+    limit = chunk_line_limit()
+    if limit <= 0:
+        return []
+    out = []
+    for ll in [limit - 1, limit, limit + 1, limit + 300]:
+        for style in (["whole", "2cut", "pieces"] if thorough else ["whole", "pieces"]):
+            data = b"hello"
+            first = b"5;" + b"e" * (ll - 4) + b"\r\n"          # a line of ll bytes with its CR LF
+            wire = first + data + b"\r\n0\r\n\r\n"
+            head = b"HTTP/1.1 200 OK\r\nTransfer-Encoding: chunked\r\n\r\n"
+            stream = head + wire
+            sizes = {"whole": [len(stream)], "2cut": [len(head) + rng.range(1, ll), len(stream)], "pieces": [len(head)] + [997] * (len(wire) // 997 + 1)}[style]
+            msizes, p = [], 0
+            for s_ in sizes:
+                lo, hi = max(p, len(head)), min(p + s_, len(stream))
+                if hi > lo:
+                    msizes.append(hi - lo)
+                p += s_
+            version = rng.choice([2, 3])
+            toks = [[version, 1], list(b"GET"), list(b"http://origin.test/p"), flat([("accept", "*/*")]), [], list(stream), sizes, []]
+            out.append(Case(line("c17_run", toks), line("c17_body", [[2, 0], list(wire), msizes, []]), kind="chunk-line-limit:%s" % style, nontrivial=True,
+                            meta={"method": "GET", "path": "/p", "exp_req_hs": sorted([("accept", "*/*"), ("host", "origin.test")]), "fwd_body": [], "declared": None,
+                                  "version": version, "status": 200, "interim": [], "exp_hs": [], "exp_body": list(data), "complete": True, "trailing": False,
+                                  "sizes": sizes[:6], "acc": [], "mode": "chunked", "overlong_line": ll > limit, "line": ll}))
+    return out
 
 
 def parse_flat(tok):
@@ -273,6 +404,8 @@ def judge(case, impl, model, spec, ctx):
     if t[0] == "996":
         ctx.setdefault("skipped_env", []).append(case.kind)
         return []
+    if m.get("h1"):
+        return judge_h1(case, t, ctx)
     if t[0] == "995":
         return [("violation", "HTTP/%d %s, %s response %d, origin pieces %s: the exchange never ended: the same origin bytes are offered to the sink again and again without being consumed"
                  % (m["version"], m["method"], m["mode"], m["status"], m["sizes"]))]
@@ -284,6 +417,8 @@ def judge(case, impl, model, spec, ctx):
     body = bytes(untok(t[5]))
     ceofs, oeofs = untok(t[6])
     what = "HTTP/%d %s, %s response %d, origin pieces %s, client accepts %s" % (m["version"], m["method"], m["mode"], m["status"], m["sizes"], m["acc"] or "all")
+    if m.get("slow"):
+        what += ", " + m["slow"]
     out = []
     # request as the origin saw it
     he = origin.find(b"\r\n\r\n")
@@ -305,6 +440,13 @@ def judge(case, impl, model, spec, ctx):
             out.append(("disagree", "%s: the model refuses this request, the code forwarded %r" % (what, origin[:he])))
         elif bytes(untok(st[0])) != origin[:he + 4]:
             out.append(("disagree", "%s: request head forwarded as %r, the model of serialize_request writes %r" % (what, origin[:he + 4], bytes(untok(st[0])))))
+    if not out and m.get("overlong_line"):
+        # a chunk-size line beyond the stated limit: no expectation from the property; the code and the model must refuse alike
+        mend = untok(model.split()[0])[0] if model else None
+        if mend is not None and (mend == 2) != (code == 2):
+            out.append(("disagree", "%s: a chunk-size line of %d bytes: the code %s, the model %s" % (what, m["line"], "refuses it" if code == 2 else "accepts it (result %d)" % code,
+                                                                                                         "refuses it" if mend == 2 else "accepts it")))
+        return out
     # response as the client saw it
     if not out:
         if status != m["status"]:
@@ -328,3 +470,137 @@ def judge(case, impl, model, spec, ctx):
         if mbody != body or (mend == 2 and code == 0 and not case.kind.startswith("endpoint:")):
             out.append(("disagree", "%s: body/end differ from the body-state model: impl %d bytes result %d, model %d bytes end %d" % (what, len(body), code, len(mbody), mend)))
     return out[:1]
+
+
+def read_h1(raw):
+    """what an HTTP/1.1 client reads: the interim responses, the final head, the bytes behind it (None, None when no final head is there)"""
+    interim, pos = [], 0
+    while True:
+        j = raw.find(b"\r\n\r\n", pos)
+        if j < 0:
+            return interim, None, raw[pos:]
+        lines = raw[pos:j].split(b"\r\n")
+        parts = lines[0].split(b" ", 2)
+        if len(parts) < 2 or not parts[0].startswith(b"HTTP/1.") or not parts[1].isdigit():
+            return interim, None, raw[pos:]
+        status = int(parts[1])
+        fields = sorted((l.split(b":", 1)[0].strip().decode("latin-1").lower(), l.split(b":", 1)[1].strip().decode("latin-1")) for l in lines[1:] if b":" in l)
+        pos = j + 4
+        if 100 <= status < 200:
+            interim.append((status, fields))
+            continue
+        return interim, (status, fields), raw[pos:]
+
+
+def judge_h1(case, t, ctx):
+    m = case.meta
+    ended = untok(t[0])[0] == 0
+    origin = bytes(untok(t[1]))
+    raw = bytes(untok(t[2]))
+    early_end, body_then = untok(t[3])
+    what = "HTTP/1.1 client through the endpoint, %s, origin answers %s + %s response %d in segments of %s%s" % (
+        m["method"], m["interim"] or "no interim response", m["mode"], m["status"], m["sizes"], (", " + m["slow"]) if m.get("slow") else "")
+    he = origin.find(b"\r\n\r\n")
+    lines = origin[:he].split(b"\r\n") if he >= 0 else []
+    exp_line = ("%s %s HTTP/1.1" % (m["method"], m["path"])).encode()
+    got_hs = sorted(tuple(x.strip() for x in l.decode("latin-1").split(":", 1)) for l in lines[1:])
+    fwd_body = origin[he + 4:] if he >= 0 else b""
+    if he < 0 or lines[0] != exp_line:
+        return [("violation", "%s: request line forwarded as %r, expected %r" % (what, lines[:1], exp_line))]
+    if got_hs != [tuple(x) for x in m["exp_req_hs"]]:
+        return [("violation", "%s: forwarded request headers %s, expected %s" % (what, got_hs, m["exp_req_hs"]))]
+    if early_end:
+        return [("violation", "%s: the endpoint ended the request stream to the origin after %d of the %d body bytes the client was still sending"
+                 % (what, body_then, len(m["fwd_body"])))]
+    if fwd_body != bytes(m["fwd_body"]):
+        return [("violation", "%s: forwarded request body has %d bytes, the client sent %d" % (what, len(fwd_body), len(m["fwd_body"])))]
+    interim, final, rest = read_h1(raw)
+    got_interim = [st for st, _ in interim]
+    exp_interim = list(m["interim"])
+    if final is None:
+        return [("violation", "%s: the client received %r and then %s: the final response never arrived (interim responses delivered: %s)"
+                 % (what, raw[:120], "the end of the stream" if ended else "nothing more", got_interim))]
+    if got_interim != exp_interim:
+        return [("violation", "%s: interim responses delivered %s, the origin sent %s" % (what, got_interim, exp_interim))]
+    for (st, fields), exp in zip(interim, exp_interim):
+        if fields != INTERIM_FIELDS[exp]:
+            return [("violation", "%s: interim response %d delivered with fields %s, the origin sent %s" % (what, st, fields, INTERIM_FIELDS[exp]))]
+    if final[0] != m["status"]:
+        return [("violation", "%s: client received status %d" % (what, final[0]))]
+    if final[1] != [tuple(x) for x in m["exp_hs"]]:
+        return [("violation", "%s: response headers delivered %s, expected %s" % (what, final[1], m["exp_hs"]))]
+    if rest != bytes(m["exp_body"]):
+        return [("violation", "%s: %d body bytes delivered to the client, the origin sent %d" % (what, len(rest), len(m["exp_body"])))]
+    if not ended and m["mode"] != "cl":
+        return [("violation", "%s: the end of the response was never signalled to the client" % what)]
+    return []
+
+
+# ---- C09: what an origin can make the endpoint hold ---------------------------------------------------------------------------
+# No proxy in common use takes a response head beyond 64-128 KiB (nginx 4-8 KiB buffers, Apache 8 KiB per line x 100 fields, HAProxy
+# 16 KiB, Envoy 60 KiB, Squid 64 KiB); a chunk-size line is a hex number and, rarely, a short extension. An endpoint that is still
+# collecting a response head after HEAD_CEILING bytes, or a chunk-size line after LINE_CEILING bytes, has no bound worth the name.
+HEAD_CEILING = 256 * 1024
+LINE_CEILING = 64 * 1024
+
+
+def stated_bound(name):
+    """a bound the code states, as the translator read it from the source (0 = none stated)"""
+    import os
+    import re
+    import vlib
+    try:
+        m = re.search(r"Definition %s : N := (\d+)\." % name, open(os.path.join(vlib.COQ, "Generated", "ForwardedFacts.v")).read())
+        return int(m.group(1)) if m else 0
+    except OSError:
+        return 0
+
+
+def bound_cases(rng, thorough):
+    """Origins that never finish their response head / a chunk-size line: the origin's last piece is repeated far beyond the
+    ceiling (engine c17_run, repeat_last). kind bound:c17_run."""
+    out = []
+    piece = 1024
+    for version in ([1, 2, 3] if thorough else [1, 2]):
+        for what, start, fill, ceiling in (
+                ("a header value that never ends", b"HTTP/1.1 200 OK\r\nX-Endless: ", b"a", HEAD_CEILING),
+                ("header lines that never end", b"HTTP/1.1 200 OK\r\n", b"X-Y: z\r\n", HEAD_CEILING),
+                ("a status line that never ends", b"HTTP/1.1 200 ", b"O", HEAD_CEILING),
+                ("a chunk-size line whose extension never ends", b"HTTP/1.1 200 OK\r\nTransfer-Encoding: chunked\r\n\r\n5;x=", b"e", LINE_CEILING),
+                ("a chunk-size line of zeros that never ends", b"HTTP/1.1 200 OK\r\nTransfer-Encoding: chunked\r\n\r\n", b"0", LINE_CEILING)):
+            chunked = b"chunked" in start
+            if chunked and version == 1:
+                continue        # an HTTP/1.1 client gets the chunked framing as it is: nothing is collected
+            last = (fill * piece)[:piece - piece % len(fill)]
+            repeat = 2 * ceiling // len(last)
+            stream = start + last
+            toks = [[version, 1, 0, 0, repeat], list(b"GET"), list(b"http://origin.test/p"), flat([("accept", "*/*")]), [], list(stream), [len(start), len(last)], []]
+            out.append(Case(line("c17_run", toks), None, kind="bound:c17_run", nontrivial=True,
+                            meta={"engine": "c17_run", "bound": "chunk-line" if chunked else "head", "what": what, "version": version, "ceiling": ceiling,
+                                  "offered": len(start) + len(last) * (repeat + 1), "piece": len(last), "before": len(start)}))
+    return out
+
+
+def judge_bound(case, impl):
+    m = case.meta
+    t = impl.split()
+    if len(t) < 8:
+        return [("violation", "c17_run: unreadable result %s" % impl[:80])]
+    code = untok(t[0])[0]
+    handed = untok(t[7])[0]
+    status = untok(t[3])[0]
+    what = "HTTP/%d GET forwarded to an origin that answers with %s (%d bytes offered in pieces of %d)" % (m["version"], m["what"], m["offered"], m["piece"])
+    stated = stated_bound("FWD_MAX_RESPONSE_HEAD_SIZE" if m["bound"] == "head" else "FWD_MAX_CHUNK_SIZE_LINE")
+    held = handed - (m["before"] if m["bound"] == "chunk-line" else 0)
+    if code == 0 or handed >= m["offered"]:
+        return [("violation", "%s: the endpoint took all of it (%d bytes) without refusing: the %s is collected without any bound%s"
+                 % (what, handed, "response head" if m["bound"] == "head" else "chunk-size line", "" if stated else " (none is stated in the code either)"))]
+    if held > m["ceiling"] + m["piece"]:
+        return [("violation", "%s: refused only after %d bytes had been collected" % (what, held))]
+    if stated and held > stated + 2 * m["piece"]:
+        return [("violation", "%s: the code states a bound of %d bytes but collected %d before refusing" % (what, stated, held))]
+    if code != 2:
+        return [("violation", "%s: the exchange did not end with an error (result %d)" % (what, code))]
+    if m["bound"] == "head" and status not in (0, 502):
+        return [("violation", "%s: the client was answered %d" % (what, status))]
+    return []
